@@ -20,7 +20,8 @@ RULE = (
     "optionally with undecodable files in between, run through anonymize_files(dumpfile=...) or netconan.netconan.main -d. Oracle: the dump parses as "
     "orig<TAB>anon lines; every address token whose text changed in an output file (paired with its output token by "
     "position with the harness's scanner) is listed with exactly that replacement; no left and no right value occurs "
-    "twice; every listed pair agrees with a fresh anonymizer. Non-trivial = input with >= 2 distinct replaced addresses "
+    "twice; every listed pair agrees with a fresh anonymizer. A dump file left over from another run may pre-exist (must be "
+    "overwritten); long: one run over two files with thousands of distinct addresses of both families. Non-trivial = input with >= 2 distinct replaced addresses "
     "of each family; distinct by case."
 )
 ASSUMPTIONS = ["an address counts as 'replaced' when its token text differs between input and output file", "the dump may list further pairs (e.g. preserved /32 entries) as long as they agree with the mapping function"]
@@ -34,6 +35,7 @@ def check_dump(case, ev):
     try:
         os.makedirs(os.path.join(d, "in"))
         texts = {}
+        files = [[name, [_resolve(cfg, l) for l in lines]] for name, lines in files]
         for name, lines in files:
             texts[name] = "".join("".join(s["s"] for s in l) + "\n" for l in lines)
             with open(os.path.join(d, "in", name), "w", encoding="utf-8", newline="") as fh:
@@ -43,6 +45,10 @@ def check_dump(case, ev):
             with open(os.path.join(d, "in", "f%d-bad.cfg" % k), "wb") as fh:
                 fh.write(b"ip address 9.8.7.6\n\xff\xfe\x80 broken\n")
         dump = os.path.join(d, "map.txt")
+        if case.get("stale_dump"):
+            # a map left over from an earlier run with another salt must simply be overwritten
+            with open(dump, "w") as fh:
+                fh.write("9.9.9.9\t1.1.1.1\n2001:db8::9\t2001:db8::1\n")
         if via == "api":
             _, exc = guarded(
                 anonymize_files,
@@ -142,7 +148,33 @@ def check_dump(case, ev):
     return None
 
 
-REPLAY = {"dump": check_dump}
+def _resolve(cfg, segs):
+    """{"t":"v4img","mask":m} -> the address whose image is that mask-shaped value."""
+    out = []
+    for sg in segs:
+        if sg["t"] == "v4img":
+            n = G.mk4(cfg).deanonymize(sg["mask"])
+            out.append({"t": "v4", "s": G.v4_canon(n), "n": n, "kind": "mask-image"})
+        else:
+            out.append(sg)
+    return out
+
+
+def check_long(case, ev):
+    """One run with thousands of distinct addresses: the dump must still list every replaced one."""
+    k = case["k"]
+    lines = []
+    for i in range(case["n4"]):
+        x = (case["start"] + i * (case["stride"] | 1)) & G.M32
+        lines.append([{"t": "sep", "s": " ip address "}, {"t": "v4", "s": G.v4_canon(x), "n": x}, {"t": "sep", "s": " 255.255.255.0"}])
+    for i in range(case["n6"]):
+        y = ((i + 1) * ((case["stride"] << 96) | (case["start"] << 48) | 0x9E3779B97F4A7C15)) & G.M128
+        lines.append([{"t": "sep", "s": "ipv6 address "}, {"t": "v6", "s": str(ipaddress.IPv6Address(y)), "n": y}, {"t": "sep", "s": "/64"}])
+    cfg = {"salt": "s%d" % k, "B4": case["B"], "B6": case["B"], "prefixes": None, "networks": None, "mode": "default"}
+    return check_dump({"cfg": cfg, "files": [["big.cfg", lines[: len(lines) // 2]], ["big2.cfg", lines[len(lines) // 2 :]]], "via": "api"}, ev)
+
+
+REPLAY = {"dump": check_dump, "long": check_long}
 
 
 @st.composite
@@ -170,15 +202,27 @@ def _case(draw):
     files = []
     for i in range(draw(st.integers(1, 4))):
         lines = [draw(G.token_line(cfg=cfg, allow_v4tail=True, pool=pool, special4=st.sampled_from(MASKS)))["segs"] for _ in range(draw(st.integers(1, 4)))]
+        if draw(st.integers(0, 4)) == 0:
+            # a mask together with the one address whose image is that mask-shaped value
+            m = draw(st.sampled_from(MASKS))
+            lines.append([{"t": "sep", "s": "ip route "}, {"t": "v4img", "mask": m}, {"t": "sep", "s": " "}, {"t": "v4", "s": G.v4_canon(m), "n": m, "kind": "canon"}, {"t": "sep", "s": ""}])
         files.append(["f%d.cfg" % i, lines])
     bad = draw(st.lists(st.integers(0, 3), max_size=2, unique=True)) if draw(st.integers(0, 3)) == 0 else []
-    return {"cfg": cfg, "files": files, "via": via, "bad": bad}
+    return {"cfg": cfg, "files": files, "via": via, "bad": bad, "stale_dump": draw(st.integers(0, 3)) == 0}
 
 
 def t_dump(shard, nshards, seed, ev, known, n=100):
     return core.hyp_drive(_case(), check_dump, n, seed, ev, known, check_name="dump")
 
 
+def t_long(shard, nshards, seed, ev, known, n4=4000, n6=1300):
+    cases = [{"k": k, "n4": n4, "n6": n6, "start": core.derive("c17", seed, k) & G.M32, "stride": (core.derive("c17s", seed, k) & 0xFFFFFF) | 0x10001, "B": [8, 0, 4, 16][k % 4]} for k in range(nshards) if k % nshards == shard]
+    return core.enum_drive(cases, check_long, ev, known, "long")
+
+
 def plan(tier):
     q = tier == "quick"
-    return [Task("dump", t_dump, shards=6 if q else 16, n=200 if q else 3000)]
+    return [
+        Task("dump", t_dump, shards=6 if q else 16, n=200 if q else 3000),
+        Task("long", t_long, shards=2 if q else 8, n4=4000 if q else 30000, n6=1300 if q else 6000),
+    ]
